@@ -77,11 +77,17 @@ type World struct {
 	Signing   chain.Signing   // address derivation used by the validator
 }
 
-// LoadWorld reads world.ndjson and generates the keys.
-func LoadWorld(t testing.TB) *World {
-	ws := kit.LoadCases(t, "world.ndjson")
+// LoadWorld reads world.ndjson (the world of the single-message cases) and generates the keys.
+func LoadWorld(t testing.TB) *World { return LoadWorldFrom(t, "world.ndjson") }
+
+// LoadLoopWorld reads loopworld.ndjson (the world of the message sequences).
+func LoadLoopWorld(t testing.TB) *World { return LoadWorldFrom(t, "loopworld.ndjson") }
+
+// LoadWorldFrom reads a world file and generates the keys.
+func LoadWorldFrom(t testing.TB, file string) *World {
+	ws := kit.LoadCases(t, file)
 	if len(ws) < 1 {
-		t.Fatalf("verifadm: empty world.ndjson")
+		t.Fatalf("verifadm: empty %s", file)
 	}
 	v := ws[0]
 	w := &World{N: v.Get("n").Int(), Owner: v.Get("owner").Strs(), Outsider: v.Get("outsider").Str(),
